@@ -351,6 +351,27 @@ def main(argv):
     else:
         problems.append(("K", tie_broken[0], tie_broken[1]))
 
+    # ------------------------------------------------ race detector (thorough tier)
+    if cfg.get("race") and tier == "thorough" and not tie_broken:
+        rbin = os.path.join(WORK, "bin", "vharness-race")
+        renv = dict(GOENV, CGO_ENABLED="1")
+        with Lock("build.lock"):
+            rc, rout, _ = sh(["go", "build", "-race", "-tags", "verif", "-o", rbin, "./cmd/vharness"], cwd=HARNESS, env=renv, timeout=900)
+        if rc != 0:
+            problems.append(("K", "race-detector build of the harness failed", rout[-3000:]))
+        else:
+            rdir = os.path.join(wdir, "race")
+            os.makedirs(rdir, exist_ok=True)
+            rc, rout, rdt = sh([rbin, "run", "-prop", pid, "-tier", "quick", "-seed", str(seed), "-out", rdir, "-repo", REPO, "-verif", VERIF],
+                               env=dict(renv, GORACE="halt_on_error=0"), timeout=3000)
+            cov["race_detector"] = {"ran": True, "seconds": round(rdt, 1), "data_races": rout.count("WARNING: DATA RACE")}
+            if "WARNING: DATA RACE" in rout:
+                i = rout.index("WARNING: DATA RACE")
+                problems.append(("O", "the race detector reported a data race", rout[i:i + 4000]))
+                race_report = rout[i:i + 4000]
+            elif rc != 0:
+                problems.append(("K", "harness run under the race detector failed", rout[-3000:]))
+
     kmis = []
     if summary is not None:
         files = summary.get("files") or []
@@ -423,6 +444,9 @@ def main(argv):
             ofails.append(of)
 
     nviol = 0
+    for p_ in problems:
+        if p_[0] == "O" and not ofails:
+            ofails = [{"what": p_[1], "input": {"stress": "see rule; run under -race", "seed": seed}, "expect": "no data race", "got": p_[2]}]
     if not ofails and kwitness:
         w = kwitness[0]
         ofails = [{"what": "the implementation's %s differ from what the proved model requires for this program (correspondence case projected onto the observables the property speaks about)" % w["observable"],
